@@ -49,6 +49,29 @@ def ref_forward(self, input):
 '''
 
 
+def check_layer_forward(report: Report, repo: Repo, rule: str) -> None:
+    """TransformerLayer.forward == the pre-norm residual recipe (term equality)."""
+    it4 = Interp(repo, opaque=lambda f: isinstance(f, FuncV) and f.module.rel == "unit_scaling/functional.py")
+    layer = it4.get_global(MD, "TransformerLayer")
+    fwd = it4.class_attr(layer, "forward")
+
+    def mkself():
+        return Obj("unit_scaling._modules.TransformerLayer", cls=layer, term=T("param", ("self",)))
+
+    cons = f"{MD}::TransformerLayer.forward"
+    try:
+        got = it4.call_function(fwd, [mkself(), P("input", (dim("b"), dim("s"), dim("H")))], {})
+        ref = oracle_function(it4, "ref_forward", REF_LAYER_FORWARD, std_globals(it4))
+        exp = it4.call_function(ref, [mkself(), P("input", (dim("b"), dim("s"), dim("H")))], {})
+        et = TM.normalize(TM.term_of(exp))
+        insts = TM.instances(TM.normalize(TM.term_of(got)))
+        for g_, gt in insts:
+            ok = TM.term_equal(gt, et)
+            report.add(rule, cons, ok, f"[{TM.guard_str(g_)}] pre-norm residual layer: (split, norm, mhsa, dropout, add) with mhsa_tau then the same with mlp/mlp_tau; " + TM.first_diff(gt, et), fmt(gt), fmt(et))
+    except Unsupported as e:
+        report.add(rule, cons, None, f"outside the analysable fragment: {e}")
+
+
 def check(report: Report, repo: Repo) -> None:
     report.rule_text = (
         "R0: the oracle (a_attn, a_mlp, S) satisfies the telescoping obligations S(0)=L/2, S(i+1)-S(i)=a(i)^2,"
@@ -62,7 +85,7 @@ def check(report: Report, repo: Repo) -> None:
     report.explanation = "closed-form comparison for symbolic depth/parity plus term-level wiring checks on _modules.py"
     report.assumptions += [
         "lemma (DESIGN.md C07): with 1+tau_i^2 = S(i+1)/S(i) the squared contributions telescope to a(i)^2/S(N) and S(0)/S(N)",
-        "wiring of TransformerStack is evaluated for layers in a finite set (1,2,3,5 / thorough up to 9): the generator is uniform in i",
+        "wiring of TransformerStack is evaluated for layers in a finite set (1,2,3,5,11,12 / thorough up to 32): the construction is uniform in i",
     ]
     # ---- R0 oracle sanity (obligations 1-5 of the design)
     obl = {
@@ -98,13 +121,16 @@ def check(report: Report, repo: Repo) -> None:
     except Unsupported as e:
         report.add("R1-tau", base, None, f"outside the analysable fragment: {e}")
 
-    # ---- R2 stack wiring
-    def opaque(f):
-        return isinstance(f, ClassV) and f.qualname in ("TransformerLayer", "DepthSequential") or (isinstance(f, FuncV) and f.module.rel == "unit_scaling/functional.py")
+    # ---- R2 stack wiring (nn.Sequential modelled: `_modules` keyed "0","1",...; len(); children())
+    from ..nnmodel import container_super_hook
 
-    depths = (1, 2, 3, 5) if report.tier == "quick" else (1, 2, 3, 4, 5, 7, 9)
+    def opaque(f):
+        return isinstance(f, ClassV) and f.qualname in ("TransformerLayer",) or (isinstance(f, FuncV) and f.module.rel == "unit_scaling/functional.py")
+
+    depths = (1, 2, 3, 5, 11, 12) if report.tier == "quick" else (1, 2, 3, 4, 5, 7, 9, 10, 11, 12, 13, 21, 32)
     for n in depths:
         it2 = Interp(repo, opaque=opaque)
+        it2.super_hook = container_super_hook("Sequential")
         stack = it2.get_global(MD, "TransformerStack")
         init = it2.class_attr(stack, "__init__")
         selfv = Obj("unit_scaling._modules.TransformerStack", cls=stack)
@@ -115,23 +141,38 @@ def check(report: Report, repo: Repo) -> None:
         except Unsupported as e:
             report.add("R2-stack-wiring", cons, None, f"outside the analysable fragment: {e}")
             break
-        sup = [e for e in it2.events if e.kind == "super" and e["method"] == "__init__"]
-        news = [e for e in it2.events if e.kind == "new" and e["cls"].qualname == "TransformerLayer"]
-        if len(sup) != 1:
-            report.add("R2-stack-wiring", cons, False, f"expected one super().__init__ call, found {len(sup)}")
+        mods = selfv.attrs.get("_modules")
+        if not isinstance(mods, dict):
+            report.add("R2-stack-wiring", cons, False, "the layers are not handed to the nn.Sequential constructor")
             continue
-        layer_objs = sup[0]["args"]
-        ok_n = len(layer_objs) == n and all(isinstance(o, Obj) for o in layer_objs)
-        report.add("R2-stack-wiring", f"{cons}::count", ok_n, f"layers={n}: number of TransformerLayer objects handed to the container", len(layer_objs), n)
+        layer_objs = list(mods.values())
+        ok_n = len(layer_objs) == n and all(isinstance(o, Obj) for o in layer_objs) and len({id(o) for o in layer_objs}) == n
+        report.add("R2-stack-wiring", f"{cons}::count", ok_n, f"layers={n}: number of distinct TransformerLayer objects in the container", len(layer_objs), n)
         if not ok_n:
             continue
         for i, o in enumerate(layer_objs):
             for attr, idx in (("mhsa_tau", 2 * i), ("mlp_tau", 2 * i + 1)):
                 got = TM.term_of(o.attrs.get(attr))
                 exp = T("callv", (T("param", ("residual_scaling",)), (idx, 2 * n), ()))
-                report.add("R2-stack-wiring", f"{cons}::{attr}", TM.term_equal(got, exp), f"layers={n}, layer {i}: {attr} must be residual_scaling({idx}, {2 * n})", fmt(got), fmt(exp))
+                report.add("R2-stack-wiring", f"{cons}::{attr}", TM.term_equal(got, exp), f"layers={n}, layer {i} (execution order): {attr} must be residual_scaling({idx}, {2 * n})", fmt(got), fmt(exp))
             for kw, val in (("hidden_size", H), ("heads", h), ("is_causal", True)):
                 report.add("R2-stack-wiring", f"{cons}::kwargs", TM.term_equal(TM.term_of(o.attrs.get(kw)), val), f"layer keyword '{kw}' forwarded", fmt(o.attrs.get(kw)), fmt(val), nontrivial=False)
+
+    # ---- R5 history independence: one rule object reused at several depths, in any order
+    it5 = Interp(repo)
+    rule5 = it5.get_global(CF, "transformer_residual_scaling_rule")
+    mm, rr = sp.Rational(3, 2), sp.Rational(1, 3)
+    try:
+        fn5 = it5.run(rule5, residual_mult=mm, residual_attn_ratio=rr)
+        for Lc in (6, 2, 4, 2):  # total branch counts, interleaved (a second stack of another depth, then the first again)
+            for idx in list(range(Lc)):
+                got = it5.call_function(fn5, [idx, Lc], {})
+                kk = idx // 2
+                exp = ORACLE["even" if idx % 2 == 0 else "odd"].subs({k: kk, L: Lc, m: mm, r: rr})
+                ok = TM.expr_equal(got, exp) if isinstance(got, (int, sp.Basic)) else None
+                report.add("R5-history", f"{base}::stateless", ok, f"the same rule object evaluated for a stack of {Lc} branches after stacks of other depths: tau({idx},{Lc}) must not depend on earlier calls", fmt(got), fmt(sp.simplify(exp)), nontrivial=False)
+    except Unsupported as e:
+        report.add("R5-history", f"{base}::stateless", None, f"outside the analysable fragment: {e}")
 
     # ---- R4: defaults of the stack / decoder, decoder forwarding
     it3 = Interp(repo, opaque=lambda f: isinstance(f, ClassV) and f.qualname in ("TransformerStack", "Embedding", "RMSNorm", "LinearReadout"))
@@ -142,8 +183,12 @@ def check(report: Report, repo: Repo) -> None:
         dflt = b.get("residual_scaling")
         ok = isinstance(dflt, FuncV) and dflt.qualname.endswith("_tau")
         if ok:
-            got = it3.call_function(dflt, [2 * k + 1, L], {})
-            ok = TM.expr_equal(got, ORACLE["odd"].subs({m: 1, r: 1}))
+            try:
+                got = it3.call_function(dflt, [2 * k + 1, L], {})
+                ok = TM.expr_equal(got, ORACLE["odd"].subs({m: 1, r: 1}))
+            except Unsupported as e:
+                got = it3.call_function(dflt, [5, 8], {})  # concrete fallback
+                ok = TM.expr_equal(got, ORACLE["odd"].subs({m: 1, r: 1, k: 2, L: 8}))
         report.add("R4-defaults", f"{MD}::{cname}.__init__::residual_scaling-default", ok, "default residual_scaling is transformer_residual_scaling_rule() with m=r=1", fmt(dflt), "transformer_residual_scaling_rule()._tau")
     dec = it3.get_global(MD, "TransformerDecoder")
     selfv = Obj("unit_scaling._modules.TransformerDecoder", cls=dec)
@@ -163,22 +208,5 @@ def check(report: Report, repo: Repo) -> None:
     except Unsupported as e:
         report.add("R4-decoder", f"{MD}::TransformerDecoder.__init__", None, f"outside the analysable fragment: {e}")
 
-    # ---- R3 layer forward
-    it4 = Interp(repo, opaque=lambda f: isinstance(f, FuncV) and f.module.rel == "unit_scaling/functional.py")
-    layer = it4.get_global(MD, "TransformerLayer")
-    fwd = it4.class_attr(layer, "forward")
-
-    def mkself():
-        return Obj("unit_scaling._modules.TransformerLayer", cls=layer, term=T("param", ("self",)))
-
-    cons = f"{MD}::TransformerLayer.forward"
-    try:
-        got = it4.call_function(fwd, [mkself(), P("input", (dim("b"), dim("s"), dim("H")))], {})
-        ref = oracle_function(it4, "ref_forward", REF_LAYER_FORWARD, std_globals(it4))
-        exp = it4.call_function(ref, [mkself(), P("input", (dim("b"), dim("s"), dim("H")))], {})
-        gt, et = TM.normalize(TM.term_of(got)), TM.normalize(TM.term_of(exp))
-        ok = TM.term_equal(gt, et)
-        report.add("R3-layer-pairing", cons, ok, "pre-norm residual layer: (split, norm, mhsa, dropout, add) with mhsa_tau then the same with mlp/mlp_tau; " + TM.first_diff(gt, et), fmt(gt), fmt(et))
-    except Unsupported as e:
-        report.add("R3-layer-pairing", cons, None, f"outside the analysable fragment: {e}")
+    check_layer_forward(report, repo, "R3-layer-pairing")
     report.floor("wiring obligations", len([o for o in report.obls if o.rule == "R2-stack-wiring"]), 20)
